@@ -115,6 +115,22 @@ theorem items_ok (dev : Medium) (ign : Bool) (items : List Item) :
     rw [h2] at ih2 ⊢
     simpa using ih2
 
+/-- leading `@import`s: each one contributes the rules of its sheet at its own place, whatever was
+    imported before (the same sheet imported twice contributes twice) -/
+theorem leading_imports (dev : Medium) (subs : List (List Medium × List Item)) (rest : List Item) :
+    Model.preprocessItems dev false (subs.map (fun p => Item.imp p.1 p.2) ++ rest) =
+      (subs.filter fun p => mediaOk p.1 dev).flatMap (fun p => Model.preprocessItems dev false p.2) ++
+        Model.preprocessItems dev false rest := by
+  induction subs with
+  | nil => rfl
+  | cons p ps ih =>
+    simp only [List.map_cons, List.cons_append, Model.preprocessItems, Model.preprocessItem,
+      Bool.false_eq_true, if_false, evaluateMediaQuery_eq, List.filter_cons]
+    by_cases hm : mediaOk p.1 dev = true
+    · simp [hm, ih]
+    · have hm' : mediaOk p.1 dev = false := by simpa using hm
+      simp [hm', ih]
+
 theorem newCSS_ok (dev : Medium) (items : List Item) :
     expand (Model.newCSS dev items) = expand (Spec.sheetRules dev items) := by
   simpa [Model.newCSS, Spec.sheetRules] using items_ok dev false items
